@@ -43,6 +43,13 @@ func genBuildBase(p *PRNG, n int) []*Case {
 		}
 		add(singleBuild("schema-matrix", []byte(d)))
 	}
+	// documents with one injected fault of every class (gen_fault.go): they are expected to be refused;
+	// whatever a changed builder accepts of them must still serialise to well-formed JDoc / OpenAPI
+	for _, c := range genFaultCases(p.Fork(), n/10, "quick") {
+		if c.Role != "base" && len(cases) < n*9/10 {
+			add(buildCase("fault-doc", c.Files, c.Root))
+		}
+	}
 	for len(cases) < n {
 		switch p.Intn(10) {
 		case 0, 1:
